@@ -16,7 +16,17 @@ ORIG = {}
 
 
 def _ser(el):
-    return ET.tostring(el, encoding='unicode')
+    # the monitor's own serialisation of the live tree.  A carriage return is
+    # written as a character reference so that judging / replaying from this
+    # text sees the same tree the library held (a raw CR would come back as LF)
+    return ET.tostring(el, encoding='unicode').replace('\r', '&#13;')
+
+
+def _strict_eq(a, b):
+    if a.tag != b.tag or a.attrib != b.attrib or (a.text or '') != (b.text or '') \
+            or (a.tail or '') != (b.tail or '') or len(a) != len(b):
+        return False
+    return all(_strict_eq(x, y) for x, y in zip(a, b))
 
 
 class WarnProxy(types.ModuleType):
@@ -85,6 +95,11 @@ def _roundtrip(ro, mt):
     try:
         s = str(ro)
         out['str'] = s
+        try:
+            out['faithful'] = _strict_eq(ET.fromstring(s), ro.xml)
+        except ET.ParseError as e:
+            out['faithful'] = False
+            out['str_parse_error'] = str(e)[:200]
         try:
             rr = ORIG['from_string'](mt.MosFile, s)
             out['rt_cls'] = type(rr).__name__
